@@ -238,12 +238,18 @@ impl<RW: QueueRW<T>, T> MultiQueue<RW, T> {
         let (cursor, reader) = ReadCursor::new(capacity);
         let needs_notify = wait.needs_notify();
         let queue = MultiQueue {
+            #[cfg(not(multiqueue2_verif))]
             d1: unsafe { mem::MaybeUninit::uninit().assume_init() },
+            #[cfg(multiqueue2_verif)]
+            d1: [0u8; 64],
 
             head: CountedIndex::new(capacity),
             tail_cache: AtomicUsize::new(0),
             writers: AtomicUsize::new(1),
+            #[cfg(not(multiqueue2_verif))]
             d2: unsafe { mem::MaybeUninit::uninit().assume_init() },
+            #[cfg(multiqueue2_verif)]
+            d2: [0u8; 64],
 
             tail: cursor,
             data: queuedat,
@@ -252,11 +258,17 @@ impl<RW: QueueRW<T>, T> MultiQueue<RW, T> {
             waiter: wait,
             needs_notify,
             mk: PhantomData,
+            #[cfg(not(multiqueue2_verif))]
             d3: unsafe { mem::MaybeUninit::uninit().assume_init() },
+            #[cfg(multiqueue2_verif)]
+            d3: [0u8; 64],
 
             manager: MemoryManager::new(),
 
+            #[cfg(not(multiqueue2_verif))]
             d4: unsafe { mem::MaybeUninit::uninit().assume_init() },
+            #[cfg(multiqueue2_verif)]
+            d4: [0u8; 64],
         };
 
         let qarc = Arc::new(queue);
@@ -283,6 +295,7 @@ impl<RW: QueueRW<T>, T> MultiQueue<RW, T> {
         unsafe {
             loop {
                 let (chead, wrap_valid_tag) = transaction.get();
+                vpoint!(SM_HEAD);
                 let tail_cache = self.tail_cache.load(Relaxed);
                 if transaction.matches_previous(tail_cache) {
                     let new_tail = self.reload_tail_multi(tail_cache, wrap_valid_tag);
@@ -290,16 +303,20 @@ impl<RW: QueueRW<T>, T> MultiQueue<RW, T> {
                         return Err(TrySendError::Full(val));
                     }
                 }
+                vpoint!(SM_TAILOK);
                 let write_cell = &mut *self.data.offset(chead);
                 let ref_cell = &*self.refs.offset(chead);
                 if !RW::check_ref(&ref_cell.refcnt) {
                     return Err(TrySendError::Full(val));
                 }
                 fence(Acquire);
+                vpoint!(SM_PINOK);
 
                 match transaction.commit(1, Relaxed) {
                     Some(new_transaction) => transaction = new_transaction,
                     None => {
+                        vnote_sent!(wrap_valid_tag);
+                        vpoint!(SM_CLAIMED);
                         let current_tag = write_cell.wraps.load(Relaxed);
 
                         // This will delay the dropping of the exsisting item until
@@ -313,7 +330,9 @@ impl<RW: QueueRW<T>, T> MultiQueue<RW, T> {
                             None
                         };
                         ptr::write(&mut write_cell.val, val);
+                        vpoint!(SM_WRITTEN);
                         write_cell.wraps.store(wrap_valid_tag, Release);
+                        vpoint!(SM_PUBLISHED);
                         return Ok(());
                     }
                 }
@@ -324,6 +343,7 @@ impl<RW: QueueRW<T>, T> MultiQueue<RW, T> {
     pub fn try_send_single(&self, val: T) -> Result<(), TrySendError<T>> {
         let transaction = self.head.load_transaction(Relaxed);
         let (chead, wrap_valid_tag) = transaction.get();
+        vpoint!(SS_HEAD);
         unsafe {
             let tail_cache = self.tail_cache.load(Relaxed);
             if transaction.matches_previous(tail_cache) {
@@ -332,13 +352,17 @@ impl<RW: QueueRW<T>, T> MultiQueue<RW, T> {
                     return Err(TrySendError::Full(val));
                 }
             }
+            vpoint!(SS_TAILOK);
             let write_cell = &mut *self.data.offset(chead);
             let ref_cell = &*self.refs.offset(chead);
             if !RW::check_ref(&ref_cell.refcnt) {
                 return Err(TrySendError::Full(val));
             }
             fence(Acquire);
+            vpoint!(SS_PINOK);
             transaction.commit_direct(1, Relaxed);
+            vnote_sent!(wrap_valid_tag);
+            vpoint!(SS_CLAIMED);
             let current_tag = write_cell.wraps.load(Relaxed);
             let _possible_drop = if RW::do_drop() && !is_tagged(current_tag) {
                 Some(ptr::read(&write_cell.val))
@@ -346,7 +370,9 @@ impl<RW: QueueRW<T>, T> MultiQueue<RW, T> {
                 None
             };
             ptr::write(&mut write_cell.val, val);
+            vpoint!(SS_WRITTEN);
             write_cell.wraps.store(wrap_valid_tag, Release);
+            vpoint!(SS_PUBLISHED);
             Ok(())
         }
     }
@@ -357,6 +383,7 @@ impl<RW: QueueRW<T>, T> MultiQueue<RW, T> {
         unsafe {
             loop {
                 let (ctail, wrap_valid_tag) = ctail_attempt.get();
+                vpoint!(R_POS);
                 let read_cell = &mut *self.data.offset(ctail);
 
                 // For any curious readers, this gnarly if block catchs a race between
@@ -366,9 +393,11 @@ impl<RW: QueueRW<T>, T> MultiQueue<RW, T> {
                 // after the writer load so ensure that the the wrap_valid_tag is still wrong so
                 // we had actually seen a race. Doing it this way removes fences on the fast path
                 let seen_tag = read_cell.wraps.load(DepOrd);
+                vpoint!(R_TAG);
                 if rm_tag(seen_tag) != wrap_valid_tag {
                     if self.writers.load(Relaxed) == 0 {
                         fence(Acquire);
+                        vpoint!(R_W0);
                         if rm_tag(read_cell.wraps.load(Acquire)) != wrap_valid_tag {
                             return Err((ptr::null(), TryRecvError::Disconnected));
                         }
@@ -378,19 +407,26 @@ impl<RW: QueueRW<T>, T> MultiQueue<RW, T> {
                 let ref_cell = &*self.refs.offset(ctail);
                 if !is_single {
                     RW::inc_ref(&ref_cell.refcnt);
+                    vpoint!(R_PINNED);
                     if reader.load_count(Relaxed) != wrap_valid_tag {
                         RW::dec_ref(&ref_cell.refcnt);
+                        vpoint!(R_PIN_LOST);
                         ctail_attempt = ctail_attempt.reload();
                         continue;
                     }
                 }
+                vpoint!(R_BEFORE_READ);
                 let rval = dependently_mut(seen_tag, &mut read_cell.val, |rc| RW::get_val(rc));
+                vpoint!(R_READ);
                 fence(Release);
                 if !is_single {
                     RW::dec_ref(&ref_cell.refcnt);
                 }
+                vnote_recv_attempt!(wrap_valid_tag);
+                vpoint!(R_UNPINNED);
                 match ctail_attempt.commit_attempt(1, Relaxed) {
                     Some(new_attempt) => {
+                        vpoint!(R_CAS_LOST);
                         ctail_attempt = new_attempt;
                         RW::forget_val(rval);
                     }
@@ -410,9 +446,11 @@ impl<RW: QueueRW<T>, T> MultiQueue<RW, T> {
             let (ctail, wrap_valid_tag) = ctail_attempt.get();
             let read_cell = &mut *self.data.offset(ctail);
             let seen_tag = rm_tag(read_cell.wraps.load(DepOrd));
+            vpoint!(V_TAG);
             if seen_tag != wrap_valid_tag {
                 if self.writers.load(Relaxed) == 0 {
                     fence(Acquire);
+                    vpoint!(V_W0);
                     if rm_tag(read_cell.wraps.load(Acquire)) != wrap_valid_tag {
                         return Err((op, ptr::null(), TryRecvError::Disconnected));
                     }
@@ -420,9 +458,13 @@ impl<RW: QueueRW<T>, T> MultiQueue<RW, T> {
                 return Err((op, &read_cell.wraps, TryRecvError::Empty));
             }
             dependently_mut(seen_tag, &mut read_cell.val, |rv_ref| {
+                vpoint!(V_BEFORE_OP);
                 let rval = op(rv_ref);
                 RW::drop_in_place(rv_ref);
+                vnote_recv_attempt!(wrap_valid_tag);
+                vpoint!(V_AFTER_OP);
                 ctail_attempt.commit_direct(1, Release);
+                vpoint!(V_COMMITTED);
                 Ok(rval)
             })
         }
@@ -431,6 +473,7 @@ impl<RW: QueueRW<T>, T> MultiQueue<RW, T> {
     fn reload_tail_multi(&self, tail_cache: usize, count: usize) -> usize {
         if let Some(max_diff_from_head) = self.tail.get_max_diff(count) {
             let current_tail = CountedIndex::get_previous(count, max_diff_from_head);
+            vpoint!(RT_M_SCANNED);
             if tail_cache == current_tail {
                 return current_tail;
             }
@@ -442,6 +485,7 @@ impl<RW: QueueRW<T>, T> MultiQueue<RW, T> {
                 Err(val) => val,
             }
         } else {
+            vpoint!(RT_M_TOFAR);
             self.tail_cache.load(Acquire)
         }
     }
@@ -452,6 +496,7 @@ impl<RW: QueueRW<T>, T> MultiQueue<RW, T> {
              process is borked!",
         );
         let current_tail = CountedIndex::get_previous(count, max_diff_from_head);
+        vpoint!(RT_S_SCANNED);
         self.tail_cache.store(current_tail, Relaxed);
         current_tail
     }
@@ -460,6 +505,7 @@ impl<RW: QueueRW<T>, T> MultiQueue<RW, T> {
 impl<RW: QueueRW<T>, T> InnerSend<RW, T> {
     #[inline(always)]
     pub fn try_send(&self, val: T) -> Result<(), TrySendError<T>> {
+        vpoint!(TS_ENTRY);
         let signal = self.queue.manager.signal.load(Relaxed);
         if signal.has_action() {
             let disconnected = self.handle_signals(signal);
@@ -472,6 +518,7 @@ impl<RW: QueueRW<T>, T> InnerSend<RW, T> {
             QueueState::Multi => {
                 if self.queue.writers.load(Relaxed) == 1 {
                     fence(Acquire);
+                    vpoint!(TS_MODE_UNI);
                     self.state.set(QueueState::Uni);
                     self.queue.try_send_single(val)
                 } else {
@@ -484,6 +531,7 @@ impl<RW: QueueRW<T>, T> InnerSend<RW, T> {
         // the performance of the queue. I suspect the compiler
         // always sets up a stack from regardless of the condition
         // and that hurts optimizations around it.
+        vpoint!(TS_BEFORE_NOTIFY);
         if val.is_ok() && self.queue.needs_notify {
             self.queue.waiter.notify();
         }
@@ -519,7 +567,9 @@ impl<RW: QueueRW<T>, T> InnerRecv<RW, T> {
                 Ok(v) => return Ok(v),
                 Err((_, TryRecvError::Disconnected)) => return Err(RecvError),
                 Err((pt, TryRecvError::Empty)) => {
+                    vpoint!(B_EMPTY);
                     let count = self.reader.load_count(Relaxed);
+                    vpoint!(B_BEFORE_WAIT);
                     unsafe {
                         self.queue.waiter.wait(count, &*pt, &self.queue.writers);
                     }
@@ -549,7 +599,9 @@ impl<RW: QueueRW<T>, T> InnerRecv<RW, T> {
                 Err((o, _, TryRecvError::Disconnected)) => return Err((o, RecvError)),
                 Err((o, pt, TryRecvError::Empty)) => {
                     op = o;
+                    vpoint!(B_EMPTY);
                     let count = self.reader.load_count(Relaxed);
+                    vpoint!(B_BEFORE_WAIT);
                     unsafe {
                         self.queue.waiter.wait(count, &*pt, &self.queue.writers);
                     }
@@ -594,16 +646,20 @@ impl<RW: QueueRW<T>, T> InnerRecv<RW, T> {
         if self.alive {
             self.alive = false;
             if self.reader.remove_consumer() == 1 {
+                vpoint!(RX_UNSUB_DEC);
                 if self
                     .queue
                     .tail
                     .remove_reader(&self.reader, &self.queue.manager)
                 {
+                    vpoint!(RX_UNSUB_REMOVED);
                     self.queue.manager.signal.set_reader(SeqCst);
                 }
+                vpoint!(RX_UNSUB_REMOVED);
                 self.queue.manager.remove_token(self.token);
             }
             fence(SeqCst);
+            vpoint!(RX_UNSUB_DONE);
             f()
         }
     }
@@ -784,6 +840,7 @@ impl<RW: QueueRW<T>, T> Stream for &FutInnerRecv<RW, T> {
     fn poll(&mut self) -> Poll<Option<T>, ()> {
         self.reader.examine_signals();
         loop {
+            vpoint!(POLL_ITER);
             match self.reader.queue.try_recv(&self.reader.reader) {
                 Ok(msg) => {
                     self.prod_wait.notify_all();
@@ -791,7 +848,9 @@ impl<RW: QueueRW<T>, T> Stream for &FutInnerRecv<RW, T> {
                 }
                 Err((_, TryRecvError::Disconnected)) => return Ok(Async::Ready(None)),
                 Err((pt, _)) => {
+                    vpoint!(B_EMPTY);
                     let count = self.reader.reader.load_count(Relaxed);
+                    vpoint!(B_BEFORE_WAIT);
                     if unsafe { self.wait.fut_wait(count, &*pt, &self.reader.queue.writers) } {
                         return Ok(Async::NotReady);
                     }
@@ -819,6 +878,7 @@ impl<RW: QueueRW<T>, R, F: for<'r> FnMut(&T) -> R, T> Stream for FutInnerUniRecv
     fn poll(&mut self) -> Poll<Option<R>, ()> {
         self.reader.examine_signals();
         loop {
+            vpoint!(POLL_ITER);
             let opref = &mut self.op;
             match self.reader.queue.try_recv_view(opref, &self.reader.reader) {
                 Ok(msg) => {
@@ -827,7 +887,9 @@ impl<RW: QueueRW<T>, R, F: for<'r> FnMut(&T) -> R, T> Stream for FutInnerUniRecv
                 }
                 Err((_, _, TryRecvError::Disconnected)) => return Ok(Async::Ready(None)),
                 Err((_, pt, _)) => {
+                    vpoint!(B_EMPTY);
                     let count = self.reader.reader.load_count(Relaxed);
+                    vpoint!(B_BEFORE_WAIT);
                     if unsafe { self.wait.fut_wait(count, &*pt, &self.reader.queue.writers) } {
                         return Ok(Async::NotReady);
                     }
@@ -854,7 +916,12 @@ impl FutWait {
 
     pub fn fut_wait(&self, seq: usize, at: &AtomicUsize, wc: &AtomicUsize) -> bool {
         if self.spin(seq, at, wc) && self.park(seq, at, wc) {
+            #[cfg(not(multiqueue2_verif))]
             ::std::thread::sleep(::std::time::Duration::from_millis(100));
+            #[cfg(multiqueue2_verif)]
+            ::std::thread::sleep(::std::time::Duration::from_millis(
+                crate::verif_hooks::FUT_PARK_SLEEP_MS.load(Relaxed),
+            ));
             true
         } else {
             false
@@ -879,9 +946,12 @@ impl FutWait {
 
     pub fn park(&self, seq: usize, at: &AtomicUsize, wc: &AtomicUsize) -> bool {
         let mut parked = self.parked.lock();
+        vnote_wait_pair!(seq, load_tagless(at));
+        vpoint!(FW_PARK_LOCKED);
         if check(seq, at, wc) {
             return false;
         }
+        vpoint!(FW_PARK_CHECKED);
         parked.push_back(current());
         true
     }
@@ -906,9 +976,11 @@ impl FutWait {
             }
         }
 
+        vpoint!(FW_SOP_BEFORE_LOCK);
         let mut parked = self.parked.lock();
         match f(val) {
             Err(TrySendError::Full(v)) => {
+                vpoint!(FW_SOP_FULL);
                 parked.push_back(current());
                 Err(TrySendError::Full(v))
             }
@@ -917,6 +989,7 @@ impl FutWait {
     }
 
     fn notify_all(&self) {
+        vpoint!(FW_NOTIFY_BEFORE_LOCK);
         let mut parked = self.parked.lock();
         for val in parked.drain(..) {
             val.notify();
@@ -931,6 +1004,7 @@ impl Wait for FutWait {
     }
 
     fn notify(&self) {
+        vpoint!(FW_NOTIFY_BEFORE_LOCK);
         let mut parked = self.parked.lock();
         if parked.len() > 0 {
             if parked.len() > 8 {
@@ -958,11 +1032,13 @@ impl Wait for FutWait {
 impl<RW: QueueRW<T>, T> Clone for InnerSend<RW, T> {
     fn clone(&self) -> InnerSend<RW, T> {
         self.state.set(QueueState::Multi);
+        vpoint!(TX_CLONE_MARKED);
         let rval = InnerSend {
             queue: self.queue.clone(),
             state: Cell::new(QueueState::Multi),
             token: self.queue.manager.get_token(),
         };
+        vpoint!(TX_CLONE_BUILT);
         self.queue.writers.fetch_add(1, SeqCst);
         rval
     }
@@ -971,6 +1047,7 @@ impl<RW: QueueRW<T>, T> Clone for InnerSend<RW, T> {
 impl<RW: QueueRW<T>, T> Clone for InnerRecv<RW, T> {
     fn clone(&self) -> InnerRecv<RW, T> {
         self.reader.dup_consumer();
+        vpoint!(RX_CLONE_DUP);
         InnerRecv {
             queue: self.queue.clone(),
             reader: self.reader.clone(),
@@ -1012,7 +1089,9 @@ impl<RW: QueueRW<T>, T> Drop for InnerSend<RW, T> {
     fn drop(&mut self) {
         self.queue.writers.fetch_sub(1, SeqCst);
         fence(SeqCst);
+        vpoint!(TX_DROP_DEC);
         self.queue.manager.remove_token(self.token);
+        vpoint!(TX_DROP_BEFORE_NOTIFY);
         self.queue.waiter.notify();
     }
 }
